@@ -355,8 +355,29 @@ def rule_call_order(chk):
         chk.floor(R + ":" + short(ent["callee"]), n, ent["min_sites"])
 
 
+def rule_rollback(chk):
+    from . import rollback
+    R = "R-ROLLBACK-PAIR"
+    chk.rule(R, "once the acquire call succeeded, every failing (or not provably successful) return of the function is preceded by the "
+                "matching release on that path (path-sensitive enumeration; Error locals tracked through their kOk comparisons)")
+    rules = core.load_json("rules/c15.json")
+    for ent in rules["rollback"]:
+        f = chk.facts(ent["unit"], funcs="asmjit::" + re.escape(ent["function"]) + "$")
+        fn = cfg.find_fn(f, ent["function"])
+        nacq = sum(1 for i, x in fn.calls(lambda x: x.get("callee") == ent["acquire"]))
+        chk.need(nacq >= 1, "%s no longer calls %s" % (ent["function"], ent["acquire"]))
+        viol, stats = rollback.check(fn, lambda x: x.get("callee") == ent["acquire"], lambda x: x.get("callee") == ent["release"])
+        inst = "%s|%s/%s" % (ent["function"], short(ent["acquire"]), short(ent["release"]))
+        if not viol:
+            chk.ob(R, inst, True, loc="%s:%d" % (ent["unit"], fn.line), detail="%d paths" % stats["paths"])
+        for el, why in viol:
+            chk.ob(R, inst, False, loc=fn.loc(el), detail="%s: %s (return `%s`)" % (ent["function"], why, fn.text(fn.e(el).get("val", 0))[:60]),
+                   key="rollback|" + inst)
+
+
 def run(chk):
     units = [u for u in core.library_units() if "/ujit/" not in u]
+    rule_rollback(chk)
     rule_null_tested(chk, units)
     rule_reserve_then_append(chk, units)
     rule_call_order(chk)
